@@ -60,6 +60,8 @@ type decompressor struct {
 	err           error
 	peekSize      int
 	eof           bool
+	srcErr        error // error of the source, reported once the data before it is used up
+	needInput     bool  // the decoder stopped for lack of input (not for lack of output room)
 }
 
 func (r *decompressor) Reset(under io.Reader, _ []byte) error {
@@ -76,6 +78,8 @@ func (r *decompressor) Reset(under io.Reader, _ []byte) error {
 
 	r.peekSize = 0
 	r.eof = false
+	r.srcErr = nil
+	r.needInput = false
 	r.err = nil
 	r.writePos = 0
 	r.readPos = 0
@@ -115,14 +119,23 @@ func (f *decompressor) step() (err error) {
 		return io.EOF
 	}
 
-	if state.input == nil {
-		state.input, err = f.rBuf.Peek(f.rBuf.Size())
-		f.peekSize = len(state.input)
-		if err != nil && err != bufio.ErrBufferFull && err != io.EOF {
-			return err
+	if state.input == nil && state.phase != phaseStreamEnd {
+		// The first bitsLen/8 buffered bytes are already in the bit buffer.
+		// Wait for the source only when the decoder ran out of input and
+		// nothing newer is buffered, and only for one byte: take what has
+		// been delivered, never insist on a full buffer, and report a source
+		// error after the data that preceded it.
+		held := int(f.state.bitsLen / 8)
+		if f.needInput && f.rBuf.Buffered() <= held {
+			_, err = f.rBuf.Peek(held + 1)
 		}
+		state.input, _ = f.rBuf.Peek(f.rBuf.Buffered())
+		f.peekSize = len(state.input)
 		f.eof = err == io.EOF
-		state.input = state.input[f.state.bitsLen/8:]
+		if err != nil && err != io.EOF && len(state.input) <= held {
+			f.srcErr = err
+		}
+		state.input = state.input[held:]
 	}
 	f.readPos = f.writePos
 
@@ -135,9 +148,10 @@ func (f *decompressor) step() (err error) {
 
 	startInputSize, startBitsLen := len(f.state.input), int(f.state.bitsLen)
 	err = f.decomperss()
+	f.needInput = err == errEndInput
 	f.state.rOffset(startInputSize, startBitsLen)
 
-	if isError(err) || (err == errEndInput && f.eof) {
+	if isError(err) || (err == errEndInput && (f.eof || f.srcErr != nil)) {
 		discardSize := f.peekSize - len(f.state.input) - int(state.bitsLen/8)
 		if discardSize > 0 {
 			_, err := f.rBuf.Discard(discardSize)
@@ -146,6 +160,10 @@ func (f *decompressor) step() (err error) {
 			}
 		}
 		f.state.input = nil
+		f.peekSize = 0
+		if err == errEndInput && f.srcErr != nil {
+			return f.srcErr
+		}
 		if err == errEndInput {
 			return io.ErrUnexpectedEOF
 		}
@@ -167,6 +185,7 @@ func (f *decompressor) step() (err error) {
 			}
 		}
 		f.state.input = nil
+		f.peekSize = 0
 	}
 	return
 }
